@@ -271,3 +271,4 @@ def run(ctx) -> None:
     chains_and_guards(ctx)
     r_txn(ctx)
     gate(ctx)
+    shared.argname_scope(ctx, ('forml.flow._graph', 'forml.flow._suite'), floor=2)
